@@ -399,6 +399,11 @@ class C11(Prop):
     def nontrivial(self, case, impl):
         return impl.startswith("R ") and len(impl) > 4
 
+    def corr_excused(self, case, impl, model):
+        # `sin` / `cos` go through f64 and are outside the model; the direct oracle (no panic,
+        # located errors) still judges the implementation on these inputs
+        return "UNSUPPORTED" in model
+
     def spec_verdict(self, case, impl, spec):
         impl = impl[len("release:"):] if impl.startswith("release:") else impl
         if impl.startswith("PANIC") or impl.startswith("ABORT"):
@@ -472,6 +477,17 @@ class C11(Prop):
                 for depth in range(1, 8):
                     t = base + (" ^" + k) * depth
                     out.append(Case("query " + C.hexs(t), "power-chain", t))
+        # every builtin (and a name that is none) called with every odd argument list: nothing, blanks,
+        # brace escapes (which parse to loose tokens, not arguments), stray commas, operators, units,
+        # unbalanced groups — alone and inside an expression
+        args = ["", " ", "{}", "{ }", "{}, {}", "{},1", "1,{}", "{1}", "{a}", "1 {}", "{} 1", "()", "(,)", ",", "1,", ",1", ",,", "1,,2",
+                "1,2", "1,2,3", "1,2,3,4", "%", "to", "to m", "m", "1 m", "1 m, 2", "1, 2 m", "-", "^", "*", "1 +", "+ 1", "(1", "1)",
+                "floor()", "round({})", "1/0", "1/0, 2", "2, 1/0", "nosuchfact", "pi", "1e999", "0^-1", "  1  ,  2  ", "1\u00a0,\u00a02", "°", "é"]
+        for f in ("floor", "ceil", "round", "sin", "cos", "trunc", "f", "to", "m"):
+            for a in args:
+                for t in (f"{f}({a})", f"1 + {f}({a})", f"{f}({a}) * 2 m", f"({f}({a}))", f"{f}({a}) {f}({a})"):
+                    if within_bound(t):
+                        out.append(Case("query " + C.hexs(t), "odd-calls", t))
         for w in ("C°", "t°", "a°", "to°", "°to", "t°o", "m°", "K°"):
             for pre in ("", "1 ", "20 ", "1m to ", "(", "1 + "):
                 for post in ("", " ", " b", ")", " * 3", "^2"):
